@@ -40,9 +40,9 @@ CALLS = [
     (None, 'a: !', 0, True),            # fails
     (None, ' b\na:a !', 1, True),       # offset, multi-line, partial
     ('W', 'ab', 0, True),
-    (None, 'a:b a:', 0, True),          # partial
+    ('Bx', 'a:b a:', 0, True),          # partial; the callback of Bx receives an object of the running parse
     (None, '-ab +b\nb b:a', 0, False),  # through Plus = T2(W): a rule passed as argument (a derived grammar overrides W)
-    ('Bx', 'a\nb:b', 0, True),           # the callback receives an object of the running parse
+    ('Pair', 'a\nb:b', 0, True),         # a class as entry point (a derived grammar inherits it and overrides W)
     ('Acc', 'abb', 0, True),             # inline Python builds and fills a fresh list per parse
     (None, '-~ab', 0, True),             # text that only a derived grammar (with its own ignore) accepts further
 ]
@@ -520,7 +520,7 @@ def reentrancy_job(job, st):
                     add_viol(res, sigs, 're-entrancy nested-call-outcome-differs', case, base[arg], io)
             if all(k in ('nested-discard', 'nested-same', 'compile') for k in kinds) and o != base[ci]:
                 add_viol(res, sigs, 're-entrancy outer-call-disturbed-by-nested-parse', case, base[ci], o)
-            if kinds == ['nested-wrap'] and o[0] == 'RET' and 'RAWSPAN' in repr(o[1]):
+            if kinds == ['nested-wrap'] and o[0] in ('RET', 'PARTIAL') and 'RAWSPAN' in repr(o[1]):
                 add_viol(res, sigs, 're-entrancy position-of-an-object-inside-a-nested-result-not-converted', case, 'line/column positions', o[1])
             if kinds == ['nested-wrap'] and o[0] != base[ci][0]:
                 add_viol(res, sigs, 're-entrancy wrapping-into-a-nested-result-fails', case, base[ci][0], o)
